@@ -659,6 +659,50 @@ def _job_instance_io(seed):
     return ('ok', 1)
 
 
+def _job_hidden_solids(seed):
+    """A visible brush entity of the template holding visible and hidden solids: only the visible ones may arrive as
+    visible geometry (the others stay hidden or are left out), under every visgroup mode."""
+    import logging
+    logging.disable(logging.CRITICAL)
+    from srctools import instancing, vmf as vmf_mod
+    from srctools.math import Vec
+    rng = random.Random(seed)
+    try:
+        tmpl = vmf_mod.VMF()
+        ent = tmpl.create_ent(rng.choice(['func_detail', 'func_brush']), targetname='b')
+        solids, n_vis = [], 0
+        for k in range(rng.choice([2, 3, 4])):
+            sol = tmpl.make_prism(Vec(-64 + 40 * k, -64, 0), Vec(-40 + 40 * k, 64, 16 + 8 * k)).solid
+            if rng.random() < 0.5 or (k == 1):
+                sol.hidden = True
+                sol.vis_shown = False
+            else:
+                n_vis += 1
+            solids.append(sol)
+        if n_vis == 0:
+            solids[0].hidden, solids[0].vis_shown, n_vis = False, True, 1
+        ent.solids = solids
+        file = instancing.InstanceFile(tmpl)
+        before = _export(tmpl)
+        for mode in (False, True):
+            target = vmf_mod.VMF()
+            pos, orient = _placement(rng)
+            inst = instancing.Instance('i', 'inst.vmf', pos, orient, rng.choice(list(instancing.FixupStyle)))
+            instancing.collapse_one(target, inst, file, visgroup=mode, engine_cache=_CACHE)
+            if _export(tmpl) != before:
+                return ('bad', 'the instance template changed during collapse_one (brush entity with hidden solids)')
+            new = [e for e in target.entities if e['classname'] == ent['classname']]
+            if len(new) != 1:
+                return ('bad', f'{len(new)} copies of the visible brush entity (visgroup={mode})')
+            got = sum(1 for s in new[0].solids if not s.hidden and s.vis_shown)
+            if got != n_vis:
+                return ('bad', f'brush entity with {n_vis} visible and {len(solids) - n_vis} hidden solids arrives with '
+                               f'{got} visible solids (visgroup={mode})')
+    except Exception as e:
+        return ('bad', f'{type(e).__name__}: {str(e)[:160]}')
+    return ('ok', 1)
+
+
 def _job_same_map(seed):
     """The same template collapsed several times into one map: an overlay's side list must name faces of the brushes
     added by *its* collapse (repeated collapses differ only by placement)."""
@@ -784,7 +828,8 @@ def _sig(text):
          'axis-aligned / arbitrary, the identity, the same placement again) under a random fixup style and instance name; '
          'instance graphs of up to 3 files including each other (cyclic and acyclic) through collapse_all with recur_limit 6; '
          'one template collapsed 2-4 times into one map (overlay face lists); a relay + io-proxy template collapsed 1-3 times '
-         'with connections made on the instance itself (outer targets must be kept, inner ones renamed); '
+         'with connections made on the instance itself (outer targets must be kept, inner ones renamed); a brush entity '
+         'with visible and hidden solids under both visgroup modes; '
          'quick 500 templates + 120 + 120 + 300 graphs, thorough 20000 + 2000 + 2000 + 5000', rule='a template / graph counts once')
 def b_collapse(ctx):
     n = 20000 if ctx.thorough else 500
@@ -815,6 +860,15 @@ def b_collapse(ctx):
                 continue
             seen.add(_sig(what))
             ctx.violation(f'instance_io.seed={job}', what, ['instance_io', job])
+    for job, res in ctx.pmap(_job_hidden_solids, [ctx.seed * 9176 + i for i in range(1000 if ctx.thorough else 60)], batch=256,
+                             job_timeout=10.0):
+        ctx.case(('hidden_solids', job))
+        if isinstance(res, str) or res[0] != 'ok':
+            what = res if isinstance(res, str) else res[1]
+            if _sig(what) in seen:
+                continue
+            seen.add(_sig(what))
+            ctx.violation(f'hidden_solids.seed={job}', what, ['hidden_solids', job])
     g = 5000 if ctx.thorough else 300
     for job, res in ctx.pmap(_job_graph, [ctx.seed * 2147483 + i for i in range(g)], batch=256, job_timeout=6.0):
         ctx.case(('graph', job))
@@ -827,7 +881,7 @@ def b_collapse(ctx):
 
 
 def _replay(inp):
-    res = _job_graph(inp[1]) if inp[0] == 'graph' else _job_instance_io(inp[1]) if inp[0] == 'instance_io' else _job_same_map(inp[1]) if inp[0] == 'same_map' else _job_collapse(inp[0])
+    res = _job_graph(inp[1]) if inp[0] == 'graph' else _job_hidden_solids(inp[1]) if inp[0] == 'hidden_solids' else _job_instance_io(inp[1]) if inp[0] == 'instance_io' else _job_same_map(inp[1]) if inp[0] == 'same_map' else _job_collapse(inp[0])
     return {'failed': isinstance(res, str) or res[0] != 'ok', 'observation': res}
 
 
